@@ -2,6 +2,7 @@
 Two mechanisms, two models: fifo_stream/parmap (Model/Fifo.lean) and Buffer/AsyncBuffer/SyncIter (Model/Buffer.lean)."""
 import core
 import scen_buffer
+import ppar
 import scen_fifo
 
 PROPS = ['Props/C05.lean', 'Props/C05Buffer.lean', 'Legacy/BufferPinned.lean']
@@ -20,6 +21,7 @@ def run(chk):
     core.e1_flow(chk, 'scen_buffer', 'buffer', {'C05'},
                  lambda rng: scen_buffer.gen_case(rng, chk.tier, rng.choice(['stop','stop',''])),
                  n, keyfn=keyfn)
+    ppar.sample(chk, 'C05', 10 if chk.tier == 'quick' else 200)
     chk.cov['rule'] = ('cases = random (kind in fifo_stream / Stream.parmap / Stream.buffer / AsyncBuffer / SyncIter, n, '
                        'capacity / concurrency / maxsize, flags, failure plan incl. StopRequested, stop position and mode '
                        '(close, del+gc), service durations, chooser, seed) run on the real code under the deterministic '
@@ -34,7 +36,7 @@ TRUSTED = [
     'deterministic scheduler harness/detsched.py (replaces threading primitives, SimpleQueue, clock) and harness/cooploop.py (asyncio selector wait as a cooperative wait)',
     'modelled not verified: SingleLane / queue.Queue are FIFO with maxsize slots; ThreadPoolExecutor runs <= max_workers calls, cancel() succeeds only before pick-up; Future.result() returns the call\'s own outcome; Thread.is_alive()/join()',
     'SyncIter is validated against the Buffer model with maxsize 2 (its worker drains the queue itself instead of queueing an end mark after a stop; indistinguishable at the observed events)',
-    "executor='process' and process-backed pools are not driven by the scheduler; covered by the theorem only, plus the repo's own tests",
+    "executor='process': not driven by the scheduler; sampled on real pool processes under the OS schedule (harness/ppar.py, monitors only), otherwise covered by the theorem (the Fifo model does not depend on the kind of executor)",
     'the timed-out poll of the repaired drain loop is a stutter step; liveness assumes the worker thread keeps being scheduled (fairness)',
 ]
 ASSUMPTIONS = [
@@ -45,6 +47,14 @@ ASSUMPTIONS = [
 
 def replay(chk, data):
     import json
+    if data['case'].get('kind') == 'ppar':
+        mons = ppar.replay_case(chk, data['case'])
+        hits = [m for m in mons if m['prop'] == chk.prop]
+        print(json.dumps(mons)[:2000])
+        if hits:
+            print(f'VIOLATION property={chk.prop} replay=(replayed)')
+            return 1
+        return 0
     scen = 'scen_buffer' if data['case']['kind'] in ('buffer', 'asyncbuffer', 'synciter') else 'scen_fifo'
     res = chk.run_cases(scen, [data['case']])
     case, r = res[0]
